@@ -89,6 +89,30 @@ def run(ctx, rep) -> None:
                 cleared.add(c.args[0].value)
     rep.check(not (cleared & set(BUDGET_KEYS)), "C15.R3", "re-arm keeps the budget keys", f"cleared keys: {sorted(cleared)}", "src/stabilize/handlers/jump_to_stage/reset.py", rs.lineno, disc="cleared")
     rep.check("stage.context =" not in norm(rs) and "stage.context.clear()" not in norm(rs), "C15.R3", "re-arm never replaces the context", "", "src/stabilize/handlers/jump_to_stage/reset.py", rs.lineno, disc="replace")
+    # removals by COMPUTED key in the re-arm helper: every key it can remove is one of the literal keys listed above
+    dyn = []
+    for n in ast.walk(rs):
+        key_expr = None
+        if isinstance(n, ast.Delete):
+            for t_ in n.targets:
+                if isinstance(t_, ast.Subscript) and norm(t_.value).endswith(".context") and not isinstance(t_.slice, ast.Constant):
+                    key_expr = t_.slice
+        elif isinstance(n, ast.Call) and norm(n.func).endswith(".context.pop") and n.args and not isinstance(n.args[0], ast.Constant):
+            # pop(key) inside `for key in (<literals>)` is the literal form handled above
+            loop = [f_ for f_ in ast.walk(rs) if isinstance(f_, ast.For) and any(x_ is n for x_ in ast.walk(f_)) and isinstance(f_.iter, (ast.Tuple, ast.List)) and all(isinstance(e_, ast.Constant) for e_ in f_.iter.elts)]
+            if not loop:
+                key_expr = n.args[0]
+        if key_expr is not None:
+            dyn.append((n, key_expr))
+    for n, key_expr in dyn:
+        # which protected keys can the computed key be? a startswith(prefix) filter is evaluated, anything else counts as "any key"
+        hit = list(BUDGET_KEYS)
+        for c_ in ast.walk(rs):
+            if isinstance(c_, ast.Call) and isinstance(c_.func, ast.Attribute) and c_.func.attr == "startswith" and c_.args and isinstance(c_.args[0], ast.Constant):
+                hit = [k_ for k_ in BUDGET_KEYS if k_.startswith(c_.args[0].value)]
+        rep.check(not hit, "C15.R3", "re-arm removes no budget key through a computed key", "" if not hit else
+                  f"`{norm(n)[:80]}` removes context keys chosen at run time and {hit} match: a stage that is re-armed as a bystander of another stage's jump loses its own jump counter, "
+                  "so two stages jumping alternately never reach max_jumps - the loop does not terminate", "src/stabilize/handlers/jump_to_stage/reset.py", n.lineno, disc="cleared-dynamic")
     for k in BUDGET_KEYS:
         for s in key_sites(prog, k):
             if s["op"] == "delete":
@@ -169,6 +193,22 @@ def run(ctx, rep) -> None:
         fx = bool(adds) and (all(_enclosed_by_while(f.node, a) for a in adds) or recursive)
         rep.check(fx, "C15.R5", f"{fnname}: scope computed to a fixed point", "the scan that adds stages is repeated (while-loop / recursion) until no stage is added"
                   if fx else "stages are added in one sweep over execution.stages: a stage declared before its prerequisite is never re-examined, so the re-arm set depends on declaration order", tv.relpath, adds[0].lineno if adds else f.node.lineno, disc=f"fixpoint:{fnname}")
+    # the stages a forward jump protects from skipping are the target and EVERYTHING reachable from it (plain reachability):
+    # whatever depends on the target must still run after it. The fan-in-restricted closures are subsets - using one here
+    # skips a successor of the target that also depends on a bypassed stage, and that successor never runs.
+    gs = tv.functions.get("get_skipped_stages")
+    if gs is None:
+        raise AnalysisError("get_skipped_stages not found")
+    closure_calls = [c for c in _calls(gs.node) if isinstance(c.func, ast.Name) and c.func.id in tv.functions and len(c.args) == 2 and "target" in norm(c.args[1])]
+    ok = False
+    detail = "no closure over the target found"
+    for c in closure_calls:
+        callee = tv.functions[c.func.id].node
+        restricted = any(isinstance(x, ast.Call) and isinstance(x.func, ast.Name) and x.func.id == "all" for x in ast.walk(callee))
+        ok = not restricted
+        detail = f"{c.func.id}(execution, {norm(c.args[1])}): " + ("every stage reachable from the target" if ok else "a fan-in-restricted closure (contains an all(...) test)")
+    rep.check(ok, "C15.R5", "forward jump: everything reachable from the target is exempt from skipping", detail if ok else detail + ": a successor of the target that also depends on a bypassed stage is marked SKIPPED and never runs - the workflow stays RUNNING",
+              tv.relpath, closure_calls[0].lineno if closure_calls else gs.node.lineno, disc="target-chain-unrestricted")
     skip_guard = [n for n in ast.walk(on) if isinstance(n, ast.If) and norm(n.test) == "skipped.status == WorkflowStatus.NOT_STARTED"]
     rep.check(bool(skip_guard) and any("reset_stage_to_skipped" in norm(s) for s in skip_guard[0].body), "C15.R5", "forward jump skips only NOT_STARTED stages", "if skipped.status == NOT_STARTED: mark skipped", "src/stabilize/handlers/jump_to_stage/handler.py", skip_guard[0].lineno if skip_guard else on.lineno, disc="skip-guard")
     fwd = [n for n in ast.walk(on) if isinstance(n, ast.If) and norm(n.test) == "not is_backward_jump" and any("get_skipped_stages" in norm(s) for s in n.body)]
